@@ -8,6 +8,12 @@ X: the real osaca.osaca.run (-> inspect) is executed in-process with --yaml-out 
    return [] on (request, snapshot, tokens, YAML numbers): every printed character of every cell, the summary row, the
    warnings, the LCD list and every YAML number are the model's.  fmt_fixed is compared with CPython's format() char by
    char on thousands of doubles.  DEFAULT_ARCHS and detect_ISA are compared with the model's table / the two counts.
+T: tools/gen_c13.py regenerates Gallina definitions from the CURRENT source of the frontend's formatting / decision methods
+   (_get_port_pressure, _get_lcd_cp_ports, _get_flag_symbols, _missing_instruction_error, _user_warnings_header/_footer,
+   _get_max_port_len, combined_view, loopcarried_dependencies, the modelled entries of full_analysis_dict) into Gen/ReportGen.v;
+   PropsGen/C13gen.v proves them equal to Model/Report.v under an explicit layout (Model/ReportPy.v) and restates the C13
+   theorems for what the code returns; harness/c13_tie.py evaluates the regenerated definitions on every report of the run and
+   on synthetic inputs and compares with what the Python methods return (whole text, every float bit, exception classes).
 Oracle: harness/c13_oracle.py judges text against YAML directly in Python (no model): printed cell == format(YAML value)
    at the shown digits, totals recomputed from the YAML's own kernel lines, iff-conditions of the warnings recomputed from
    the request, LCD list against the analysis result.
@@ -26,8 +32,10 @@ import c13_coq as C
 import c13_tie
 
 FINISH = dict(level="proof",
-              rule="one evaluation = one report (text + YAML) of the real CLI entry point compared cell by cell, or one double "
-                   "formatted by fmt_fixed and by CPython; a report is non-trivial when it has at least one non-blank "
+              rule="one evaluation = one report (text + YAML) of the real CLI entry point compared cell by cell, one double "
+                   "formatted by fmt_fixed and by CPython, or one input of the translation cross-check (a report's recorded objects "
+                   "/ a synthetic report / a single method call: regenerated Gallina vs the Python method, plus the unit-level "
+                   "oracle on the method's own result); a report is non-trivial when it has at least one non-blank "
                    "pressure cell or an unknown instruction; distinct = distinct (kind, model, --fixed, --ignore-unknown, "
                    "--arch given, selection mode) combinations")
 
